@@ -107,8 +107,9 @@ P_C16_final == (IsSummary /\ E.final > 0 /\ E.ls > 0) =>
        L == Rec[E.ls].S
    IN /\ SameActs(NetE, F, L) /\ FormMap(F) = FormMap(L)
       /\ \A v \in Range1(F.veh) : v.n[1] = TourMap(L)[v.id][1]
-      /\ \A t \in Range1(F.tr) : \A e \in Range1(t.succ) :
-            EndDepotOf(NetE, VehRec(F, e.v)) = StartDepotOf(NetE, VehRec(F, e.s))
+      \* (the successor is read off the cycles themselves, not asked from the implementation)
+      /\ \A t \in Range1(F.tr) : \A c \in Range1(t.cyc) : \A k \in DOMAIN c.v :
+            EndDepotOf(NetE, VehRec(F, c.v[k])) = StartDepotOf(NetE, VehRec(F, c.v[(k % Len(c.v)) + 1]))
 \* the answer is the projection of the final schedule
 P_C16_output == (IsSummary /\ E.out > 0 /\ E.final > 0) =>
    LET F == Rec[E.final].S
